@@ -315,7 +315,8 @@ pub fn run_case(line: &str) -> (String, Vec<String>) {
     (obs, fails)
 }
 
-/// `--opt scale`: every parameter from the scale sizes.  `n` up to 2^21 + 64 items (the parsers
+/// `--opt scale`: every parameter from the scale sizes.  `n` up to 2^21 + 64 items, 2^24 + 64 in
+/// the thorough tier (the parsers
 /// run at several million items per second; nothing is materialised), chunk and read sizes from one
 /// byte to 2 MiB, one large item (a clause of `big` literals, a comment of `big` bytes) up to 2 MiB.
 pub fn gen_scale(rng: &mut Rng, thorough: bool) -> String {
@@ -327,7 +328,8 @@ pub fn gen_scale(rng: &mut Rng, thorough: bool) -> String {
     };
     let chunk = pick(rng, true);
     let read = pick(rng, true);
-    let mut n = pick(rng, false);
+    // thorough: up to 2^24 items (a stream of ~200 MB)
+    let mut n = if thorough { *rng.pick(&scale_sizes(10, 24)) } else { pick(rng, false) };
     // every byte a read call (and a refill) with chunk or read size 1..7: fewer items in the quick tier
     if (chunk < 64 || read < 64) && !thorough { n = n.min(1 << 18); }
     let big = if rng.chance(1, 2) { pick(rng, false) } else { 0 };
